@@ -2,6 +2,9 @@
   Lemmas.StoreDelC17 — invariants of the store model under writes and deletes.
 -/
 import Influx.Model.StoreDel
+import Influx.Lemmas.StoreDelOrder
+import Influx.Spec.C16
+import Influx.Lemmas.DelPredRunInv
 
 namespace Influx.Model.StoreDel
 open Influx.Model.DelPred (Bytes Pred)
@@ -378,5 +381,463 @@ theorem wf_deleteRange (f : FileEnt) (hwf : f.WF) (lo hi : Int) (hlh : lo ≤ hi
     rcases mem_insertTomb.1 hr with rfl | hr
     · exact hlh
     · exact hwf.2 r hr
+
+/-! ### one series -/
+
+def Series.WF (s : Series) : Prop := (∀ f ∈ s.files, f.WF) ∧ Asc s.cache
+
+def mergeFrom (acc : List (Int × Int)) (fs : List FileEnt) : List (Int × Int) :=
+  fs.foldl (fun acc f => addPts acc f.visible) acc
+
+theorem pts_def (s : Series) : s.pts = addPts (mergeFrom [] s.files) s.cache := rfl
+
+theorem asc_mergeFrom (acc : List (Int × Int)) (fs : List FileEnt) (h : Asc acc) : Asc (mergeFrom acc fs) := by
+  unfold mergeFrom
+  induction fs generalizing acc with
+  | nil => exact h
+  | cons f fs ih => exact ih _ (asc_addPts acc f.visible h)
+
+theorem cut_mergeFrom (lo hi : Int) (hlh : lo ≤ hi) (acc : List (Int × Int)) (fs : List FileEnt)
+    (h : Asc acc) (hwf : ∀ f ∈ fs, f.WF) :
+    cutPts lo hi (mergeFrom acc fs) = mergeFrom (cutPts lo hi acc) (fs.map (·.deleteRange lo hi)) := by
+  unfold mergeFrom
+  induction fs generalizing acc with
+  | nil => rfl
+  | cons f fs ih =>
+    simp only [List.foldl_cons, List.map_cons]
+    rw [ih _ (asc_addPts acc f.visible h) (fun g hg => hwf g (by simp [hg])),
+      cutPts_addPts lo hi acc f.visible h, visible_deleteRange f (hwf f (by simp)) lo hi hlh]
+
+/-- **A range delete removes exactly the points of the series inside the range** — through
+    every TSM file (tombstones, dropped keys) and the cache, whatever overwrites what. -/
+theorem pts_cut (s : Series) (hwf : s.WF) (lo hi : Int) (hlh : lo ≤ hi) :
+    (s.cut lo hi).pts = cutPts lo hi s.pts := by
+  rw [pts_def, pts_def, cutPts_addPts lo hi _ _ (asc_mergeFrom [] s.files (by simp [Asc])),
+    cut_mergeFrom lo hi hlh [] s.files (by simp [Asc]) hwf.1]
+  rfl
+
+theorem wf_cut (s : Series) (hwf : s.WF) (lo hi : Int) (hlh : lo ≤ hi) : (s.cut lo hi).WF := by
+  refine ⟨?_, asc_cutPts lo hi _ hwf.2⟩
+  intro f hf
+  simp only [Series.cut, List.mem_map] at hf
+  obtain ⟨g, hg, rfl⟩ := hf
+  exact wf_deleteRange g (hwf.1 g hg) lo hi hlh
+
+theorem addPts_nil_nil : addPts [] [] = [] := rfl
+
+theorem mergeFrom_all_gone (acc : List (Int × Int)) (fs : List FileEnt) (h : ∀ f ∈ fs, f.gone = true) :
+    mergeFrom acc fs = acc := by
+  unfold mergeFrom
+  induction fs generalizing acc with
+  | nil => rfl
+  | cons f fs ih =>
+    simp only [List.foldl_cons]
+    have : f.visible = [] := by simp [visible_def, h f (by simp)]
+    rw [this]
+    exact ih _ (fun g hg => h g (by simp [hg]))
+
+/-- **Data ⇒ listed**: a series with a remaining point is listed. -/
+theorem listed_of_pts (s : Series) (h : s.pts ≠ []) : s.listed = true := by
+  by_cases hl : s.listed = true
+  · exact hl
+  · exfalso
+    apply h
+    simp only [Series.listed, Bool.or_eq_true, List.any_eq_true, Bool.not_eq_true', not_or, not_exists,
+      not_and, Bool.not_eq_false] at hl
+    obtain ⟨hf, hc⟩ := hl
+    have hc' : s.cache = [] := by simpa [List.isEmpty_iff] using hc
+    rw [pts_def, mergeFrom_all_gone [] s.files (fun f hf' => by simpa using hf f hf'), hc']
+    rfl
+
+theorem delSeries_name {sel lo hi} {s s' : Series} (h : delSeries sel lo hi s = some s') :
+    s'.name = s.name ∧ s'.tags = s.tags := by
+  unfold delSeries at h
+  split at h
+  · split at h
+    · cases h; exact ⟨rfl, rfl⟩
+    · cases h
+  · cases h; exact ⟨rfl, rfl⟩
+
+/-- **Clause 1 on one series.**  A selected series keeps exactly its points outside `[lo, hi]`;
+    it leaves the index only if none is left; a series that is not selected is untouched. -/
+theorem delSeries_exact (sel : Bool) (lo hi : Int) (hlh : lo ≤ hi) (s : Series) (hwf : s.WF)
+    (hl0 : s.listed = true) :
+    match delSeries sel lo hi s with
+    | some s' => s'.name = s.name ∧ s'.tags = s.tags ∧ s'.WF ∧ s'.listed = true ∧
+        s'.pts = (if sel then cutPts lo hi s.pts else s.pts)
+    | none => sel = true ∧ cutPts lo hi s.pts = [] := by
+  unfold delSeries
+  cases sel with
+  | false => exact ⟨rfl, rfl, hwf, hl0, rfl⟩
+  | true =>
+    simp only [if_true]
+    by_cases hl : (s.cut lo hi).listed = true
+    · rw [if_pos hl]
+      exact ⟨rfl, rfl, wf_cut s hwf lo hi hlh, hl, pts_cut s hwf lo hi hlh⟩
+    · rw [if_neg hl]
+      refine ⟨trivial, ?_⟩
+      rw [← pts_cut s hwf lo hi hlh]
+      by_cases hp : (s.cut lo hi).pts = []
+      · exact hp
+      · exact absurd (listed_of_pts _ hp) hl
+
+/-! ### one shard: the content as a function series ↦ points -/
+
+def sameKey (name : Bytes) (tags : Tags) (s : Series) : Bool := s.name = name ∧ s.tags = tags
+
+def findSeries (sh : Shard) (name : Bytes) (tags : Tags) : Option Series := sh.series.find? (sameKey name tags)
+
+/-- what a read of the series returns in this shard -/
+def readPts (sh : Shard) (name : Bytes) (tags : Tags) : List (Int × Int) :=
+  match findSeries sh name tags with
+  | some s => s.pts
+  | none => []
+
+/-- the shard's index lists the series -/
+def isListed (sh : Shard) (name : Bytes) (tags : Tags) : Bool := (findSeries sh name tags).isSome
+
+/-- shard invariant: every series well-formed and listed, one entry per (name, tags) -/
+structure ShardWF (sh : Shard) : Prop where
+  wf : ∀ s ∈ sh.series, s.WF ∧ s.listed = true
+  uniq : (sh.series.map fun s => (s.name, s.tags)).Nodup
+
+/-- is the series handed to `DeleteSeriesRange`? -/
+def selOf (sh : Shard) (pred : Option Pred) (mname : Option Bytes) (name : Bytes) (tags : Tags) : Bool :=
+  (visited sh mname).contains name && predSelects pred name tags
+
+theorem find_filterMap_delSeries (l : List Series) (sel : Series → Bool) (lo hi : Int) (name : Bytes) (tags : Tags)
+    (huniq : (l.map fun s => (s.name, s.tags)).Nodup) :
+    (l.filterMap fun s => delSeries (sel s) lo hi s).find? (sameKey name tags) =
+      (l.find? (sameKey name tags)).bind fun s => delSeries (sel s) lo hi s := by
+  induction l with
+  | nil => rfl
+  | cons x xs ih =>
+    have hx : (x.name, x.tags) ∉ xs.map fun s => (s.name, s.tags) := (List.nodup_cons.1 huniq).1
+    have hxs := (List.nodup_cons.1 huniq).2
+    simp only [List.filterMap_cons, List.find?_cons]
+    by_cases hk : sameKey name tags x = true
+    · simp only [hk]
+      -- x is the series; nothing else in xs has its key
+      have hnone : ∀ l' : List Series, (∀ s ∈ l', sameKey name tags s = false) → l'.find? (sameKey name tags) = none := by
+        intro l' h; rw [List.find?_eq_none]; intro s hs; simp [h s hs]
+      cases hd : delSeries (sel x) lo hi x with
+      | none =>
+        simp only [Option.bind_some, hd]
+        apply hnone
+        intro s hs
+        obtain ⟨s0, hs0, hs0d⟩ := List.mem_filterMap.1 hs
+        obtain ⟨hn, ht⟩ := delSeries_name hs0d
+        simp only [sameKey, decide_eq_true_eq] at hk
+        simp only [sameKey, decide_eq_false_iff_not]
+        intro hc
+        apply hx
+        refine List.mem_map.2 ⟨s0, hs0, ?_⟩
+        rw [← hn, ← ht, hc.1, hc.2, hk.1, hk.2]
+      | some x' =>
+        obtain ⟨hn, ht⟩ := delSeries_name hd
+        have hk' : sameKey name tags x' = true := by
+          simp only [sameKey, decide_eq_true_eq] at hk ⊢; rw [hn, ht]; exact hk
+        simp [hd, List.find?_cons, hk']
+    · have hk' : sameKey name tags x = false := by simpa using hk
+      simp only [hk']
+      cases hd : delSeries (sel x) lo hi x with
+      | none => simpa using ih hxs
+      | some x' =>
+        obtain ⟨hn, ht⟩ := delSeries_name hd
+        have hk2 : sameKey name tags x' = false := by
+          simp only [sameKey, decide_eq_false_iff_not] at hk' ⊢; rw [hn, ht]; exact hk'
+        simp only [List.find?_cons, hk2]
+        exact ih hxs
+
+/-- **Clause 1 on one shard** (`abs' = abs minus {(k, t) | selected k ∧ lo ≤ t ≤ hi}`): after the
+    delete every series reads as before minus the points of the range, if it was selected, and
+    exactly as before otherwise. -/
+theorem readPts_delete (sh : Shard) (hwf : ShardWF sh) (lo hi : Int) (hlh : lo ≤ hi) (pred : Option Pred)
+    (mname : Option Bytes) (name : Bytes) (tags : Tags) :
+    readPts (sh.delete lo hi pred mname) name tags =
+      if selOf sh pred mname name tags then cutPts lo hi (readPts sh name tags) else readPts sh name tags := by
+  unfold readPts findSeries
+  simp only [Shard.delete]
+  rw [find_filterMap_delSeries sh.series (fun s => (visited sh mname).contains s.name && predSelects pred s.name s.tags)
+    lo hi name tags hwf.uniq]
+  cases hf : sh.series.find? (sameKey name tags) with
+  | none => simp [cutPts]
+  | some s =>
+    have hs : s ∈ sh.series := List.mem_of_find?_eq_some hf
+    have hk := List.find?_some hf
+    simp only [sameKey, decide_eq_true_eq] at hk
+    obtain ⟨hswf, hsl⟩ := hwf.wf s hs
+    have hex := delSeries_exact ((visited sh mname).contains s.name && predSelects pred s.name s.tags) lo hi hlh s hswf hsl
+    simp only [Option.bind_some]
+    have hsel : selOf sh pred mname name tags =
+        ((visited sh mname).contains s.name && predSelects pred s.name s.tags) := by
+      simp [selOf, hk.1, hk.2]
+    rw [hsel]
+    cases hd : delSeries ((visited sh mname).contains s.name && predSelects pred s.name s.tags) lo hi s with
+    | none =>
+      rw [hd] at hex
+      simp only at hex ⊢
+      rw [hex.1, if_pos rfl, hex.2]
+    | some s' =>
+      rw [hd] at hex
+      exact hex.2.2.2.2
+
+/-- **Clause 2, the direction that always holds**: a series that still reads a point is listed. -/
+theorem listed_of_readPts (sh : Shard) (name : Bytes) (tags : Tags) (h : readPts sh name tags ≠ []) :
+    isListed sh name tags = true := by
+  unfold readPts at h
+  unfold isListed
+  cases hf : findSeries sh name tags with
+  | none => simp [hf] at h
+  | some s => rfl
+
+theorem shardWF_delete (sh : Shard) (hwf : ShardWF sh) (lo hi : Int) (hlh : lo ≤ hi) (pred : Option Pred)
+    (mname : Option Bytes) : ShardWF (sh.delete lo hi pred mname) := by
+  constructor
+  · intro s' hs'
+    simp only [Shard.delete, List.mem_filterMap] at hs'
+    obtain ⟨s, hs, hd⟩ := hs'
+    obtain ⟨hswf, hsl⟩ := hwf.wf s hs
+    have hex := delSeries_exact ((visited sh mname).contains s.name && predSelects pred s.name s.tags) lo hi hlh s hswf hsl
+    rw [hd] at hex
+    exact ⟨hex.2.2.1, hex.2.2.2.1⟩
+  · simp only [Shard.delete]
+    have hsub : ∀ l : List Series, (l.map fun s => (s.name, s.tags)).Nodup →
+        ((l.filterMap fun s => delSeries ((visited sh mname).contains s.name && predSelects pred s.name s.tags) lo hi s).map
+          fun s => (s.name, s.tags)).Nodup := by
+      intro l
+      induction l with
+      | nil => intro _; exact List.nodup_nil
+      | cons x xs ih =>
+        intro h
+        have hx := (List.nodup_cons.1 h).1
+        have hxs := (List.nodup_cons.1 h).2
+        simp only [List.filterMap_cons]
+        cases hd : delSeries ((visited sh mname).contains x.name && predSelects pred x.name x.tags) lo hi x with
+        | none => exact ih hxs
+        | some x' =>
+          obtain ⟨hn, ht⟩ := delSeries_name hd
+          simp only [List.map_cons]
+          refine List.nodup_cons.2 ⟨?_, ih hxs⟩
+          intro hm
+          obtain ⟨s', hs', hkey⟩ := List.mem_map.1 hm
+          obtain ⟨s0, hs0, hs0d⟩ := List.mem_filterMap.1 hs'
+          obtain ⟨hn0, ht0⟩ := delSeries_name hs0d
+          apply hx
+          refine List.mem_map.2 ⟨s0, hs0, ?_⟩
+          simp only [Prod.mk.injEq] at hkey ⊢
+          rw [← hn0, ← ht0, hkey.1, hkey.2, hn, ht]
+          exact ⟨rfl, rfl⟩
+    exact hsub sh.series hwf.uniq
+
+/-! ### the predicate and the handler's measurement short-cut -/
+
+open Influx.Spec.C16 (evalPred PredWF SeriesWF) in
+/-- inside the C16 domain the compiled predicate selects exactly the series of which it is true -/
+theorem predSelects_eq (p : Pred) (name : Bytes) (tags : Tags)
+    (hp : PredWF p = true) (hs : SeriesWF name tags = true) (hk : DelPred.KeyOK name tags = true) :
+    predSelects (some p) name tags = evalPred name tags p := by
+  simp [predSelects, DelPred.matchSeries_spec p name tags hp hs hk]
+
+open Influx.Spec.C16 (evalPred) in
+theorem evalPred_conjuncts (name : Bytes) (tags : Tags) (p : Pred) (h : evalPred name tags p = true) :
+    ∀ c ∈ conjuncts p, evalPred name tags c = true := by
+  induction p with
+  | rule k neq v => intro c hc; simp only [conjuncts, List.mem_singleton] at hc; subst hc; exact h
+  | or l r _ _ => intro c hc; simp only [conjuncts, List.mem_singleton] at hc; subst hc; exact h
+  | and l r ihl ihr =>
+    simp only [evalPred, Bool.and_eq_true] at h
+    intro c hc
+    simp only [conjuncts, List.mem_append] at hc
+    rcases hc with hc | hc
+    · exact ihl h.1 c hc
+    · exact ihr h.2 c hc
+
+open Influx.Spec.C16 (evalPred keyValue) in
+/-- the measurement the handler's short-cut names is the only one the predicate can be true of -/
+theorem measNameOf_sound (p : Pred) (nm name : Bytes) (tags : Tags) (h : measNameOf p = some nm)
+    (he : evalPred name tags p = true) : name = nm := by
+  unfold measNameOf at h
+  split at h
+  · next k v heq =>
+    cases h
+    have hmem : Pred.rule k false nm ∈ (conjuncts p).filter isMeasRule := by rw [heq]; simp
+    obtain ⟨hc, hk⟩ := List.mem_filter.1 hmem
+    simp only [isMeasRule, decide_eq_true_eq] at hk
+    have := evalPred_conjuncts name tags p he _ hc
+    simp only [evalPred, keyValue, hk, if_true] at this
+    simpa using this
+  · cases h
+
+theorem mem_measurements {sh : Shard} {s : Series} (hs : s ∈ sh.series) : s.name ∈ sh.measurements := by
+  unfold Shard.measurements
+  exact mem_sortDedup.2 (List.mem_map.2 ⟨s, hs, rfl⟩)
+
+open Influx.Spec.C16 (evalPred) in
+/-- **The measurement short-cut of `DeleteSeriesWithPredicate` loses nothing** (after fix
+    C17-delete-measurement-neq-shortcut): visiting only the measurements up to the named one
+    selects exactly the series of which the predicate is true. -/
+theorem selOf_handler (sh : Shard) (p : Pred) (s : Series) (hs : s ∈ sh.series)
+    (hsel : predSelects (some p) s.name s.tags = evalPred s.name s.tags p) :
+    selOf sh (some p) (measNameOf p) s.name s.tags = evalPred s.name s.tags p := by
+  unfold selOf
+  rw [hsel]
+  cases hm : measNameOf p with
+  | none =>
+    have : (visited sh none).contains s.name = true := by
+      simpa [visited] using mem_measurements hs
+    rw [this]; simp
+  | some nm =>
+    cases he : evalPred s.name s.tags p with
+    | false => simp
+    | true =>
+      have hn := measNameOf_sound p nm s.name s.tags hm he
+      have hin : nm ∈ sh.measurements := hn ▸ mem_measurements hs
+      have : (visited sh (some nm)).contains s.name = true := by
+        simp only [visited, List.contains_eq_mem, hin, decide_true, if_true, decide_eq_true_eq,
+          List.mem_filter]
+        exact ⟨hn ▸ hin, by simp [hn, cmpBytes_refl]⟩
+      rw [this]; simp
+
+/-! ### writes and snapshots keep the invariant -/
+
+theorem addPts_ne_nil (acc new : List (Int × Int)) (h : new ≠ []) : addPts acc new ≠ [] := by
+  unfold addPts
+  have hins : ∀ (p : Int × Int) (l : List (Int × Int)), insertPt p l ≠ [] := by
+    intro p l
+    cases l with
+    | nil => simp [insertPt]
+    | cons q qs =>
+      simp only [insertPt]
+      split
+      · simp
+      · split <;> simp
+  have hkeep : ∀ (ps : List (Int × Int)) (a : List (Int × Int)), a ≠ [] →
+      ps.foldl (fun acc p => insertPt p acc) a ≠ [] := by
+    intro ps
+    induction ps with
+    | nil => intro a ha; exact ha
+    | cons p ps ih => intro a _; exact ih _ (hins p a)
+  cases new with
+  | nil => exact absurd rfl h
+  | cons p ps => exact hkeep ps _ (hins p acc)
+
+theorem shardWF_write (sh : Shard) (hwf : ShardWF sh) (name : Bytes) (tags : Tags) (pts : List (Int × Int))
+    (hp : pts ≠ []) : ShardWF (sh.write name tags pts) := by
+  unfold Shard.write
+  split
+  · constructor
+    · intro s' hs'
+      simp only [List.mem_map] at hs'
+      obtain ⟨s, hs, rfl⟩ := hs'
+      obtain ⟨hswf, hsl⟩ := hwf.wf s hs
+      split
+      · refine ⟨⟨hswf.1, asc_addPts _ _ hswf.2⟩, ?_⟩
+        have := addPts_ne_nil s.cache pts hp
+        simp [Series.listed, List.isEmpty_iff, this]
+      · exact ⟨hswf, hsl⟩
+    · have : (sh.series.map fun s => if s.name = name ∧ s.tags = tags then { s with cache := addPts s.cache pts } else s).map
+          (fun s => (s.name, s.tags)) = sh.series.map fun s => (s.name, s.tags) := by
+        rw [List.map_map]
+        apply List.map_congr_left
+        intro s _
+        simp only [Function.comp]
+        split <;> rfl
+      simp only
+      rw [this]
+      exact hwf.uniq
+  · next hno =>
+    constructor
+    · intro s' hs'
+      simp only [List.mem_append, List.mem_singleton] at hs'
+      rcases hs' with hs' | rfl
+      · exact hwf.wf s' hs'
+      · refine ⟨⟨by simp, asc_addPts [] pts (by simp [Asc])⟩, ?_⟩
+        have := addPts_ne_nil [] pts hp
+        simp [Series.listed, List.isEmpty_iff, this]
+    · simp only [List.map_append, List.map_cons, List.map_nil]
+      rw [List.nodup_append]
+      refine ⟨hwf.uniq, by simp, ?_⟩
+      intro a ha b hb
+      simp only [List.mem_singleton] at hb
+      subst hb
+      intro hab
+      subst hab
+      obtain ⟨s, hs, hkey⟩ := List.mem_map.1 ha
+      apply hno
+      simp only [List.any_eq_true, decide_eq_true_eq]
+      simp only [Prod.mk.injEq] at hkey
+      exact ⟨s, hs, hkey⟩
+
+theorem shardWF_snapshot (sh : Shard) (hwf : ShardWF sh) : ShardWF sh.snapshot := by
+  unfold Shard.snapshot
+  constructor
+  · intro s' hs'
+    simp only [List.mem_map] at hs'
+    obtain ⟨s, hs, rfl⟩ := hs'
+    obtain ⟨hswf, hsl⟩ := hwf.wf s hs
+    split
+    · exact ⟨hswf, hsl⟩
+    · refine ⟨⟨?_, by simp [Asc]⟩, by simp [Series.listed]⟩
+      intro f hf
+      simp only [List.mem_append, List.mem_singleton] at hf
+      rcases hf with hf | rfl
+      · exact hswf.1 f hf
+      · exact ⟨hswf.2, by simp⟩
+  · have : (sh.series.map fun s => if s.cache.isEmpty then s else { s with files := s.files ++ [⟨s.cache, [], false⟩], cache := [] }).map
+        (fun s => (s.name, s.tags)) = sh.series.map fun s => (s.name, s.tags) := by
+      rw [List.map_map]
+      apply List.map_congr_left
+      intro s _
+      simp only [Function.comp]
+      split <;> rfl
+    simp only
+    rw [this]
+    exact hwf.uniq
+
+/-! ### clause 2, the other direction: only without separate tombstones in a TSM file -/
+
+/-- no value of the series is in a TSM file (everything still in the cache) -/
+def CacheOnly (s : Series) : Prop := s.files = []
+
+theorem addPts_nil_asc (c : List (Int × Int)) (h : Asc c) : addPts [] c = c := by
+  -- inserting an ascending list from the left appends each element at the end
+  have hback : ∀ (p : Int × Int) (l : List (Int × Int)), (∀ q ∈ l, q.1 < p.1) → insertPt p l = l ++ [p] := by
+    intro p l
+    induction l with
+    | nil => intro _; rfl
+    | cons q qs ih =>
+      intro hq
+      have h1 := hq q (by simp)
+      have : ¬ p.1 < q.1 := by omega
+      have h2 : ¬ p.1 = q.1 := by omega
+      simp only [insertPt, this, h2, if_false]
+      rw [ih (fun x hx => hq x (by simp [hx]))]
+      rfl
+  have hgen : ∀ (c acc : List (Int × Int)), Asc (acc ++ c) → addPts acc c = acc ++ c := by
+    intro c
+    induction c with
+    | nil => intro acc _; simp [addPts]
+    | cons p ps ih =>
+      intro acc hasc
+      simp only [addPts, List.foldl_cons]
+      have hp : ∀ q ∈ acc, q.1 < p.1 := by
+        intro q hq
+        have := List.pairwise_append.1 hasc
+        exact this.2.2 q hq p (by simp)
+      rw [hback p acc hp]
+      have := ih (acc ++ [p]) (by simpa using hasc)
+      simpa [addPts] using this
+  simpa using hgen c [] (by simpa using h)
+
+/-- **Listed ⇒ data, for series whose values are all in the cache**: then a series is listed
+    exactly when it still has a point. -/
+theorem listed_iff_pts_cacheOnly (s : Series) (hwf : s.WF) (hc : CacheOnly s) :
+    s.listed = true ↔ s.pts ≠ [] := by
+  unfold CacheOnly at hc
+  rw [pts_def, hc]
+  simp only [mergeFrom, List.foldl_nil, Series.listed, hc, List.any_nil, Bool.false_or, Bool.not_eq_true',
+    addPts_nil_asc s.cache hwf.2]
+  cases s.cache <;> simp
 
 end Influx.Model.StoreDel
